@@ -10,7 +10,7 @@ open Apko Apko.Path Apko.FS Apko.Formats
 def CFL (fs fs' : FS) : Prop :=
   fs.nodes.length ≤ fs'.nodes.length ∧ ∀ j : Nat, j < fs.nodes.length → ContentEq (fs'.node j) (fs.node j)
 
-theorem CFL.refl (fs : FS) : CFL fs fs := ⟨Nat.le_refl _, fun _ _ => ContentEq.rfl' _⟩
+theorem CFL.refl (fs : FS) : CFL fs fs := ⟨Nat.le_refl _, fun _ _ => ContentEq.same _⟩
 
 theorem CFL.trans {a b c : FS} (h1 : CFL a b) (h2 : CFL b c) : CFL a c := by
   refine ⟨Nat.le_trans h1.1 h2.1, fun j hj => ?_⟩
@@ -23,13 +23,13 @@ theorem cfl_create (fs : FS) (d : Nat) (b : Name) (nd : Inode) (hd : (fs.node d)
   refine ⟨by rw [length_create]; omega, fun j hj => ?_⟩
   by_cases hjd : j = d
   · rw [hjd, node_create_parent fs d b nd hd]; exact ⟨rfl, rfl, rfl⟩
-  · rw [node_create_other fs d j b nd hjd (by omega)]; exact ContentEq.rfl' _
+  · rw [node_create_other fs d j b nd hjd (by omega)]; exact ContentEq.same _
 
 theorem cfl_modify (fs : FS) (i : Nat) (f : Inode → Inode) (hf : ∀ n, ContentEq (f n) n) : CFL fs (fs.modify i f) := by
   refine ⟨by simp, fun j _ => ?_⟩
   rw [node_modify]; split
   · rename_i h; rw [h.1]; exact hf _
-  · exact ContentEq.rfl' _
+  · exact ContentEq.same _
 
 theorem mkdirAllLoop_cfl (c : Cfg) (mode : Nat) :
     ∀ (rest : List Name) (fs : FS) (at_ : Pos) (tr : List Name), (fs.node at_.ino).dir = true →
@@ -219,11 +219,11 @@ theorem ustep_frame (c : Cfg) (hc : c.posix = false) (cfg : AccCfg) (pip p g : N
     Ext fs (ustep c cfg st fs).2 ∧ fs.nodes.length ≤ (ustep c cfg st fs).2.nodes.length ∧
       ContentEq ((ustep c cfg st fs).2.node g) (fs.node g) ∧ UOK (ustep c cfg st fs).1 p := by
   have same : ∀ st', UOK st' p → Ext fs fs ∧ fs.nodes.length ≤ fs.nodes.length ∧ ContentEq (fs.node g) (fs.node g) ∧ UOK st' p :=
-    fun st' h => ⟨Ext.refl fs, Nat.le_refl _, ContentEq.rfl' _, h⟩
+    fun st' h => ⟨Ext.refl fs, Nat.le_refl _, ContentEq.same _, h⟩
   have upd : ∀ (F : Inode → Inode) st', DataOnly F → UOK st' p →
       Ext fs (fs.modify p F) ∧ fs.nodes.length ≤ (fs.modify p F).nodes.length ∧
         ContentEq ((fs.modify p F).node g) (fs.node g) ∧ UOK st' p :=
-    fun F st' hF h => ⟨Ext.of_shape (hF.shape fs p), by simp, by rw [node_modify_ne fs p g F hne]; exact ContentEq.rfl' _, h⟩
+    fun F st' hF h => ⟨Ext.of_shape (hF.shape fs p), by simp, by rw [node_modify_ne fs p g F hne]; exact ContentEq.same _, h⟩
   cases st with
   | start => simp only [ustep, openRC_plain c hc fs passwdPath pip p hp]; exact same _ rfl
   | opened h =>
